@@ -6,7 +6,11 @@ references, executed on the real classes in a fresh interpreter per batch (the u
 sets f_low/f_high hanging off the two terminal singletons - is process-global) and on the extracted model;
 after EVERY step: status, truth table of every pool entry, the == matrix, the root-identity matrix,
 variables(), and a scan of ALL live nodes (walked from the terminals through f_low/f_high, cross-checked with
-BDDNode.nodes()) for two nodes with the same (var, low, high)."""
+BDDNode.nodes()) for two nodes with the same (var, low, high).
+The observer asks `!=` as well as `==` (must be complementary); histories re-parse the TEXT of a live pool entry under
+another ordering (the same text under two orderings alive together), put one OBDD object into two slots, use one object
+as both operands, and spell some binary steps with augmented assignment; the variable names a, ab, b, bb contain one
+another."""
 from common import *
 import bddlib as B
 LEVEL = 'proof'
@@ -56,7 +60,9 @@ def gen_history(rng, maxlen, psize=PSIZE):
     n = rng.randint(max(3, maxlen // 3), maxlen)
     slot_ord = [None] * psize
     slot_expr = [None] * psize
+    slot_text = [None] * psize       # the text a slot was parsed from (expression notation only)
     ops = []
+    n_shadow = 0
     p_cycle = rng.choice([0.0, 0.5, 0.5, 1.0])
     while len(ops) < n:
         filled = [i for i in range(psize) if slot_ord[i] is not None]
@@ -75,41 +81,57 @@ def gen_history(rng, maxlen, psize=PSIZE):
             elif q < 0.11:
                 O = O + [O[0]]                        # repeated variable in the ordering
             src = [i for i in filled if slot_expr[i] is not None and tuple(slot_ord[i]) == tuple(O)]
-            if src and rng.random() < 0.3:
-                e = variant(rng, slot_expr[rng.choice(src)])
+            # live entries parsed from a text under ANOTHER ordering: the very same text is parsed again under O while
+            # the first diagram is alive (whatever the library remembers about a text must not outlive the ordering)
+            shadow = [i for i in filled if slot_text[i] is not None and tuple(slot_ord[i]) != tuple(O)]
+            if shadow and rng.random() < 0.35:
+                i = rng.choice(shadow)
+                e = slot_expr[i]
+                op = B.mk_parse(k, O, e, text=slot_text[i])
+                n_shadow += 1
             else:
-                e = B.rand_expr(rng, rng.randint(0, 3), vs, p_kw=0.3, p_const=0.08, p_bad=p_bad)
-            op = B.mk_parse(k, O, e, lam=rng.random() < 0.3, full=rng.random() < 0.15)
+                if src and rng.random() < 0.3:
+                    e = variant(rng, slot_expr[rng.choice(src)])
+                else:
+                    e = B.rand_expr(rng, rng.randint(0, 3), vs, p_kw=0.3, p_const=0.08, p_bad=p_bad)
+                op = B.mk_parse(k, O, e, lam=rng.random() < 0.3, full=rng.random() < 0.15)
             ok = B.expected_status(e, O) == 'ok'
             ops.append(op)
             if ok:
                 slot_ord[k], slot_expr[k] = list(O), e
-        elif r < 0.54:
+                slot_text[k] = op[4] if op[0] == 'parse' else None
+        elif r < 0.50:
             i, j = rng.choice(filled), rng.choice(filled)
-            ops.append([rng.choice(['and', 'or', 'xor']), i, j, k])
+            if rng.random() < 0.12:
+                j = i                                     # one object as both operands
+            ops.append([rng.choice(['and', 'or', 'xor']), i, j, k] + (['aug'] if rng.random() < 0.2 else []))
             if tuple(slot_ord[i]) == tuple(slot_ord[j]):
-                slot_ord[k], slot_expr[k] = slot_ord[i], None
+                slot_ord[k], slot_expr[k], slot_text[k] = slot_ord[i], None, None
+        elif r < 0.54:
+            i = rng.choice(filled)                        # a second reference to the same OBDD object
+            ops.append(['alias', i, k])
+            slot_ord[k], slot_expr[k], slot_text[k] = slot_ord[i], slot_expr[i], slot_text[i]
         elif r < 0.62:
             i = rng.choice(filled)
             ops.append(['not', i, k])
-            slot_ord[k], slot_expr[k] = slot_ord[i], None
+            slot_ord[k], slot_expr[k], slot_text[k] = slot_ord[i], None, None
         elif r < 0.72:
             i = rng.choice(filled)
             v = rng.choice(slot_ord[i]) if rng.random() < 0.8 else rng.randrange(5)
             ops.append(['restrict', i, v, rng.choice([True, False, 0, 1]), k])
-            slot_ord[k], slot_expr[k] = slot_ord[i], None
+            slot_ord[k], slot_expr[k], slot_text[k] = slot_ord[i], None, None
         elif r < 0.79:
             i = rng.choice(filled)
             ops.append(['reparse', i, k, rng.choice(['root', 'lambda'])])
-            slot_ord[k], slot_expr[k] = slot_ord[i], None
+            slot_ord[k], slot_expr[k], slot_text[k] = slot_ord[i], None, None
         elif r < 0.92:
             i = rng.choice(filled)
             ops.append(['drop', i, 'cycle' if rng.random() < p_cycle else 'del'])
-            slot_ord[i], slot_expr[i] = None, None
+            slot_ord[i], slot_expr[i], slot_text[i] = None, None, None
         else:
             ops.append(['gc'])
     ops.append(['gc'])
-    return {'psize': psize, 'ops': ops}
+    return {'psize': psize, 'ops': ops, 'n_shadow': n_shadow}
 
 
 PAIR_BASIS = ['a', 'b', '~a', 'a & b', 'b & a', 'a | b', '~(~a & ~b)', 'a & ~b | ~a & b', '(a | b) & ~(a & b)',
@@ -123,7 +145,13 @@ PAIR_BASIS = [B.rn(t) for t in PAIR_BASIS]
 def pairs_history(rng, O, basis):
     """every pair of the basis under one ordering: load everything, churn half of it, reload"""
     n = len(basis)
-    ops = [B.mk_parse(i, O, e, lam=(i % 3 == 2)) for i, e in enumerate(basis)]
+    # four members are first parsed under the REVERSED ordering and stay alive in extra slots while the very same texts are
+    # parsed under O
+    O2 = list(reversed(O))
+    big = [i for i, e in enumerate(basis) if len(B.evars(e)) >= 3 and i % 3 != 2]
+    extra = rng.sample(big, 4)
+    ops = [B.mk_parse(n + t, O2, basis[i]) for t, i in enumerate(extra)]
+    ops += [B.mk_parse(i, O, e, lam=(i % 3 == 2)) for i, e in enumerate(basis)]
     idx = list(range(n))
     rng.shuffle(idx)
     for i in idx[:n // 2]:
@@ -132,7 +160,7 @@ def pairs_history(rng, O, basis):
     for i in idx[:n // 2]:
         ops.append(B.mk_parse(i, O, B.to_kw(basis[(i + 1) % n])))
     ops.append(['gc'])
-    return {'psize': n, 'ops': ops}
+    return {'psize': n + 4, 'ops': ops}
 
 
 def batch(histories):
@@ -146,9 +174,13 @@ def run(R):
               'permutation of the same variables); operations parse / lambda / & | ^ / ~ / restrict / reparse(str(root) or str(obdd)) / '
               'drop (immediate del, or deferred: parked in an unreachable cycle until the next collection) / gc; ~10%% of the parse steps '
               'are meant to fail (variable outside the ordering, non-Boolean syntax, repeated variable); 30%% of parses re-spell an '
-              'expression already in the pool (keywords, double negation, De Morgan, commuted operands); plus all-pairs histories: '
+              'expression already in the pool (keywords, double negation, De Morgan, commuted operands), 35%% of the parses that can do so '
+              're-parse the very TEXT of a live entry under another ordering (one text, two orderings, both diagrams alive); 4%% of the steps '
+              'put one OBDD object into a second slot, 12%% of the binary steps use one slot as both operands, 20%% are spelled with augmented '
+              'assignment (acc = p[i]; acc &= p[j]; p[k] = acc); `!=` is observed next to `==`; the names a, ab, b, bb contain one another '
+              '(restrict(\'ab\') next to a and b); plus all-pairs histories: '
               'a %d-expression basis loaded into one pool under each ordering (quick 4, thorough all 24), half of it dropped, collected '
-              'and reloaded in the other notation. Batches of 10 histories share one fresh interpreter (pool released and collected in '
+              'and reloaded in the other notation, while four of the texts are kept alive under the reversed ordering. Batches of 10 histories share one fresh interpreter (pool released and collected in '
               'between; the table must be empty again). A case = a history; non-trivial = it has a step after which two distinct pool '
               'slots hold the same non-constant function under the same ordering, or a drop/gc/overwrite step after which the number of '
               'live nodes in the unique table went down (nodes were really freed)' % (PSIZE, len(PAIR_BASIS)))
@@ -169,7 +201,7 @@ def run(R):
     batches = B.chunks(hs, 10) + [[h] for h in pair_hs]
     results = B.parallel(batch, batches)
     kinds, statuses, lens = {}, {}, {}
-    twin_steps = freed_steps = garbage_steps = steps = 0
+    twin_steps = freed_steps = garbage_steps = steps = shadow_steps = 0
     max_live = 0
     for bt, res in zip(batches, results):
         for h, (viol, info, _) in zip(bt, res):
@@ -178,10 +210,16 @@ def run(R):
                 B.report_violation(R, 'C16', h, v)
             if viol:
                 continue
+            shadow_steps += h.get('n_shadow', 0)
             nt = False
-            for s in info:
+            for op, s in zip(h['ops'], info):
                 steps += 1
                 kinds[s['kind']] = kinds.get(s['kind'], 0) + 1
+                if op[0] in ('and', 'or', 'xor'):
+                    if len(op) > 4:
+                        kinds['binary(augmented)'] = kinds.get('binary(augmented)', 0) + 1
+                    if op[1] == op[2]:
+                        kinds['binary(one slot twice)'] = kinds.get('binary(one slot twice)', 0) + 1
                 if s['status'] != 'ok':
                     statuses[s['kind'] + ':' + s['status']] = statuses.get(s['kind'] + ':' + s['status'], 0) + 1
                 twin_steps += s['twins']
@@ -198,7 +236,7 @@ def run(R):
     R.cov['distribution'] = {
         'histories': len(hs), 'all_pairs_histories': len(pair_hs), 'steps': steps, 'op_kinds': kinds,
         'expected_errors': statuses, 'history_length': lens,
-        'steps_with_twin_slots': twin_steps, 'steps_that_freed_nodes': freed_steps,
+        'parses_of_a_live_text_under_another_ordering': shadow_steps, 'steps_with_twin_slots': twin_steps, 'steps_that_freed_nodes': freed_steps,
         'steps_with_uncollected_garbage_in_the_table': garbage_steps, 'max_live_nodes': max_live}
     R.exhaustive = False
 
